@@ -360,7 +360,7 @@ def routed (kv : List (String × String)) (k dflt : String) : FrontEnd :=
     | none => dflt
   frontEnd subjectLc Gen.HclYaml.extCases name.toList
 
-def handle : Handler := fun input impl =>
+def handle1 : Handler := fun input impl =>
   let kv := parseKV input
   let v := Pandora.Spec.C16.verdict impl
   if "SLOW".toList.isPrefixOf impl.toList || "HANG".toList.isPrefixOf impl.toList then
@@ -381,11 +381,7 @@ def handle : Handler := fun input impl =>
       else match denoted schemaStrict fns kv with
         | none => some d
         | some r => r
-    if routed kv "hn" "ammo.hcl" != .hcl || routed kv "yn" "ammo.yaml" != .yaml then
-      -- by the regenerated extension switch one of the two files does not reach its front-end: no prediction, the
-      -- Spec judges what was observed
-      ("-", v)
-    else if mal == "4" then
+    if mal == "4" then
       -- a `locals` block with a label: hcl reports it as an error and drops it; the file must be refused as a whole
       if !labelled then ("-", "skip:no-labelled-locals-block-in-the-spelling")
       else
@@ -422,5 +418,12 @@ def handle : Handler := fun input impl =>
           | none => predictRefused d
           | some dc => if dumpData dc == dumpData d then predict d else predictPair dc d
         if p.endsWith "A=?" && !(p.endsWith "D=? A=?") then ("-", if v == "ok" then "skip:ammo-list-too-large-to-expand" else v) else (p, v)
+
+/-- by the regenerated extension switch one of the two files does not reach its front-end: no prediction (the model
+of the front-ends does not say what the other front-end makes of the text); the Spec judges what was observed -/
+def handle : Handler := fun input impl =>
+  let kv := parseKV input
+  let r := handle1 input impl
+  if routed kv "hn" "ammo.hcl" != .hcl || routed kv "yn" "ammo.yaml" != .yaml then ("-", r.2) else r
 
 end Pandora.Drv.C16
